@@ -211,8 +211,10 @@ def _shedable(ctx: _Shedable) -> ValueClass:
         return both     # no bound, so nothing to overflow
     if ctx.overflow is not OverflowMode.OVERFLOW:
         return both     # saturating and wrapping stay finite; asserting raises
-    if not any(ctx._overflow_to_infinity(s) for s in (False, True)):
+    if ctx.num_randbits == 0 and not any(ctx._overflow_to_infinity(s) for s in (False, True)):
         return both     # the overflow saturates whichever way it rounds
+    # (with random bits an operand just past the bound reaches the infinity on
+    # a draw that rounds away, whatever the base mode is)
     # a finite overflow lands wherever an infinite operand does, so that rule
     # stays -- unless the format refuses it, which shedding leaves refused
     if ctx.enable_inf or ctx.inf_value is not None:
